@@ -36,7 +36,23 @@ def build(spec):
         return dict((build(k), build(v)) for k, v in spec[1])
     if t == 'H':
         return hostile(spec[1])
+    if t == 'M':
+        import sys
+        cls = getattr(sys.modules.get('__main__'), 'MainPoint', None) or _MainPointStandIn
+        return cls(build(spec[1]))
     raise ValueError('bad spec %r' % (spec,))
+
+
+class _MainPointStandIn(object):
+    """used only where the process has no MainPoint in its __main__ (the harness itself, for classification)"""
+    def __init__(self, x):
+        self.x = x
+    def __eq__(self, other):
+        return type(other).__name__ in ('MainPoint', '_MainPointStandIn') and other.x == self.x
+    def __hash__(self):
+        return hash(('MainPoint', self.x))
+    def __repr__(self):
+        return 'MainPoint(%r)' % (self.x,)
 
 
 class BadHash(object):
